@@ -463,6 +463,47 @@ def check_string(ctx, paths, s, model, deep):
                          {"s": s, "doc": doc.decode("utf-8", "replace") if not doc.startswith((b"\xff\xfe", b"\xfe\xff")) else doc.decode("utf-16", "replace")}, k, s, direction="reply", position="attr")
 
 
+def token_typed(ctx):
+    """Leaves typed xsd:token / xsd:normalizedString / xsd:NMTOKEN / xsd:language: a value of the type is sent and
+    decoded as it is - spaces that are not XML white space (no-break, em, ideographic) are characters of the value."""
+    types = ["token", "normalizedString", "Name", "string"]
+    schema = ('<xsd:element name="f"><xsd:complexType><xsd:sequence>%s</xsd:sequence>%s</xsd:complexType></xsd:element>'
+              '<xsd:element name="fResponse"><xsd:complexType><xsd:sequence>%s</xsd:sequence></xsd:complexType></xsd:element>'
+              % ("".join('<xsd:element name="e_%s" type="xsd:%s"/>' % (t, t) for t in types),
+                 "".join('<xsd:attribute name="a_%s" type="xsd:%s"/>' % (t, t) for t in types),
+                 "".join('<xsd:element name="e_%s" type="xsd:%s"/>' % (t, t) for t in types)))
+    w = wsdlkit.wsdl_doc(schema, "f", "fResponse")
+    creq, crep = wsdlkit.client(w, nosend=True, unwrap=False), wsdlkit.client(w)
+    for v in ("a\u00a0b", "x\u2003y", "\u3000z", "one two", "a\u2028b", "k\u00a0"):
+        if v.startswith("\u3000") or " " in v or "\u2028" in v:
+            vals = {t: (v if t != "Name" else "n1") for t in types}
+        else:
+            vals = {t: (v if t != "Name" else "n\u00b7x") for t in types}
+        meta = {"stream": "token-typed", "value": v, "s": v}
+        ctx.case(common.canon(meta), True)
+        try:
+            arg = {("e_" + t): vals[t] for t in types}
+            arg.update({("_a_" + t): vals[t] for t in types})
+            env = wsdlkit.envelope_bytes(creq.service.f(arg))
+            fn = xmlread.find1(xmlread.find1(xmlread.parse(env), "Body"), "f")
+            got = [{c["name"][1][2:]: c["text"] for c in fn["children"]}, {k[1][2:]: a for k, a in fn["attrs"].items()}]
+        except Exception as e:
+            got = "%s: %s" % (type(e).__name__, e)
+        if got != [vals, vals]:
+            ctx.fail("request element text not recovered", dict(meta, types=types), got, [vals, vals], direction="request",
+                     position="text", path="typed leaves")
+        reply = ('<e:Envelope xmlns:e="%s"><e:Body><fResponse xmlns="%s">%s</fResponse></e:Body></e:Envelope>'
+                 % (xmlread.ENV11, wsdlkit.TNS, "".join("<e_%s>%s</e_%s>" % (t, vals[t], t) for t in types))).encode("utf-8")
+        try:
+            r = crep.service.f({}, __inject={"reply": reply})
+            got = {t: str(getattr(r, "e_" + t)) for t in types}
+        except Exception as e:
+            got = "%s: %s" % (type(e).__name__, e)
+        if got != vals:
+            ctx.fail("reply element text not decoded to the document's string", dict(meta, types=types), got, vals,
+                     direction="reply", position="text")
+
+
 def same_local_names(ctx):
     """Attributes of one element that share a local name and differ in namespace are different attributes: the parser
     keeps each with its own value, whether the prefix is declared on the element, on an ancestor, or re-bound below."""
@@ -563,6 +604,13 @@ def run(ctx, deep_budget=None):
               "Zoe\u0308 & A\u030a", "\u1e9b\u0323", "\u00e9e\u0301"):
         ctx.dist["no-normal-form"] += 1
         check_string(ctx, paths, s, None, True)
+    # a zero width no-break space (the code point of the byte order mark) at either end or alone; text that is mostly
+    # markup characters and holds the end-of-CDATA sequence
+    for s in ("\ufeffabc", "abc\ufeff", "\ufeff", "\ufeff\ufeff<a>", "if (a[b[0]]>1 && c<2 && d<3 && e<4) { }",
+              "<<<<<]]>>>>>>&&&&&", "]]>" * 5 + "&" * 5, "<![CDATA[" + "<&" * 8 + "]]>"):
+        ctx.dist["bom-and-markup-heavy"] += 1
+        check_string(ctx, paths, s, None, True)
+    token_typed(ctx)
     # replies in every encoding a document may declare (the value is the document's string, whatever bytes spell it)
     for s in ("\u00e9 x", "caf\u00e9 & cr\u00e8me", "\u20acuro", "\U0001d11e", "plain", "\u00fc<\u00df>"):
         for enc in ("utf-8-declared", "utf-16", "utf-16-be", "iso-8859-1"):
